@@ -215,6 +215,22 @@ def check(ctx):
         ctx.ob("C11.R3", ini, "the dual-averaging constants are stored under their own "
                               "names", not wrong, detail=f"mismatch {wrong}",
                stmt=f"constants {wrong}")
+    # tune (except the mass-matrix tuner of HMC/NUTS, C12) and end_warmup leave the
+    # kernel state untouched
+    for nm, ci in sorted(kernels.items()):
+        for mname in ("tune", "_tune_fast", "end_warmup"):
+            fi = ci.own_method(mname)
+            if fi is None:
+                continue
+            r = evaluate(repo, fi)
+            writes = [loc for loc, _, _, _ in r.stores if _rooted_at(loc, KS)]
+            rt = r.ret()
+            same = rt is not None and rt[0] == "call" and kw(rt, "kernel_state", 1) == KS
+            ctx.ob("C11.R4", fi, f"{mname} returns the kernel state unchanged", same
+                   and not writes, detail=f"writes {[pretty(w) for w in writes]}; returns "
+                                          f"{short(rt or (), 80)}",
+                   stmt=f"{mname} changes kernel state")
+
     # kernel-state dataclasses restart dual averaging on construction
     n_states = 0
     for q, ci in sorted(repo.classes.items()):
